@@ -50,8 +50,12 @@ def run_case(c):
         # ---- injection backend
         src = make_src(c, c["inj_seed"])
         fb = V.PolyphaseFilterbank(num_taps=taps, num_branches=nb)
-        fb.estimate_channelized_stds(factor=200, seed=7)
-        stds0 = np.array(fb.channelized_stds, dtype=float).copy()
+        lazy = bool(c.get("lazy_stds"))
+        if not lazy:
+            fb.estimate_channelized_stds(factor=200, seed=7)
+            stds0 = np.array(fb.channelized_stds, dtype=float).copy()
+        else:
+            stds0 = None        # left to the backend: estimated (unseeded) the first time a sub-block is requantised, i.e. mid-stream
         dg = V.RealQuantizer(target_fwhm=c.get("dig_fwhm", 32), num_bits=8)
         try:
             be = V.RawVoltageBackend.from_data(stem_in, src, digitizer=dg, filterbank=fb, start_chan=c["start_chan"], num_subblocks=c["num_subblocks"])
@@ -113,11 +117,16 @@ def run_case(c):
                 break
         # ---- gain
         ts_d = float(dg.target_std)
-        want = stds0 * (ts_d if c["digitize"] else 1.0)
-        res["stds0"] = stds0.tolist(); res["gain_want"] = want.tolist()
+        want_ap = {}
+        for a in range(be.num_antennas):
+            for p_ in range(be.num_pols):
+                st = stds0 if not lazy else np.array(be.filterbank[a][p_].channelized_stds, dtype=float)
+                want_ap[(a, p_)] = st * (ts_d if c["digitize"] else 1.0)
+        res["stds0"] = None if lazy else stds0.tolist(); res["gain_want"] = want_ap[(0, 0)].tolist()
         res["gains"] = gains
         for key, lst in gains.items():
             arr = np.array(lst)
+            want = want_ap[tuple(int(x) for x in key.split(","))]
             if not np.allclose(arr, want[None, :], rtol=1e-9, atol=0):
                 k = int(np.argmax(~np.all(np.isclose(arr, want[None, :], rtol=1e-9, atol=0), axis=1)))
                 res["fails"].append(["gain-not-stationary", "antenna,pol %s: custom deviation at call %d is %s, at call 0 %s, expected %s at every call (digitize=%s)"
@@ -158,6 +167,7 @@ def run_case(c):
                         Rin = inb[rsl, :, p].real; Iin = inb[rsl, :, p].imag
                         tmr, tsr = np.mean(Rin), np.std(Rin); tmi, tsi = np.mean(Iin), np.std(Iin)
                         mr, _ = est(X.real, 10000); mi, _ = est(X.imag, 10000)
+                        want = want_ap[(a, p)]
                         v = qz(X.real, 0, tsr, bits, mr, want[0]) + 1j * qz(X.imag, 0, tsi, bits, mi, want[1])
                         v = v + inb[rsl, tau0:tau0 + nrows, p].T
                         m2r, s2r = est(v.real, 10000); m2i, s2i = est(v.imag, 10000)
